@@ -24,7 +24,7 @@ from __future__ import annotations
 import ast
 
 from sa.guards import aliases, derefs, norm
-from sa.pysrc import dotted
+from sa.pysrc import ClassInfo, dotted
 from sa.report import AnalysisError
 from sa.types import walk_own
 
@@ -680,8 +680,37 @@ def run(ctx):
                 return flag
         return None
 
+    def path_binding(r, name):
+        """what the path last bound a plain local to (None when it did not)"""
+        v_ = None
+        for st_ in r.path.stmts():
+            if isinstance(st_, ast.Assign) and len(st_.targets) == 1 and isinstance(st_.targets[0], ast.Name) and st_.targets[0].id == name:
+                v_ = st_.value
+        return v_
+
+    def infeasible(r):
+        """the path tests `<local> is None` against what it has itself just bound the local to: a class of the repository is not None,
+        the constant None is"""
+        for a in r.facts:
+            if a[0] == "none" and isinstance(a[1], str) and a[1].isidentifier():
+                b_ = path_binding(r, a[1])
+                if b_ is None:
+                    continue
+                is_none = isinstance(b_, ast.Constant) and b_.value is None
+                is_cls = isinstance(b_, ast.Name) and isinstance(prog.resolve(fac.module, b_.id), ClassInfo)
+                if (is_none and a[2] is False) or (is_cls and a[2] is True):
+                    return True
+        return False
+
     probs, table = [], []
     for r in rows:
+        if infeasible(r):
+            continue
+        # the reader class may be picked first and called at the end: `reader_cls(...)` reads as the class the path bound
+        if r.end == "return" and r.value and "(" in r.value:
+            hb = path_binding(r, r.value.split("(")[0])
+            if isinstance(hb, ast.Name):
+                r.value = hb.id + r.value[r.value.index("("):]
         is_str = tv(r.facts, "isinstance(%s, str)" % pparam)
         is_dir = tv(r.facts, "os.path.isdir(%s)" % pparam)
         is_zip = tv(r.facts, "zipfile.is_zipfile(%s)" % pparam)
